@@ -1,6 +1,7 @@
 #!/bin/bash
 # tools/trymut.sh <patch> <prop> [<prop>...]: apply a seeded change to /repo, run the quick checks, undo.
 patch=$1; shift
+stamp=$(mktemp /var/tmp/trymut.XXXXXX)
 cd /verif
 if [ -n "$(git -C /repo status --short | grep -v examples/0)" ]; then echo "/repo has uncommitted changes; refusing"; exit 2; fi
 if ! git -C /repo apply --check "$patch" 2>/dev/null; then echo "PATCH-DOES-NOT-APPLY $patch"; git -C /repo apply --3way "$patch" 2>&1 | tail -3; fi
@@ -10,4 +11,6 @@ for p in "$@"; do
   echo "== $p exit=$rc"; echo "$out" | grep -E "VIOLATION|violation|KNOWN|summary|BUILD|HARNESS|NONDET" | head -6
 done
 git -C /repo reset -q; git -C /repo checkout -- $(git -C /repo diff --name-only | grep -v '^examples/0') 2>/dev/null; git -C /repo status --short | grep -v "examples/0" 
-rm -rf /verif/replays.mut; mv /verif/replays /verif/replays.mut 2>/dev/null; true
+# replays and evidence written while the change was applied do not describe the unchanged tree
+rm -rf /verif/replays.mut; mkdir -p /verif/replays.mut; find /verif/replays -newer "$stamp" -type f -exec mv {} /verif/replays.mut/ \; 2>/dev/null
+git -C /verif checkout -- evidence 2>/dev/null; rm -f "$stamp"; true
